@@ -600,6 +600,7 @@ func c08Isolation(c *Ctx) {
 		{"C08/R3", "node.processSignatureProposal:DKGRoundID", [3]string{pkgNode, "BaseNodeService", "processSignatureProposal"}, "ReconstructedSignature", "DKGRoundID", `^message\.DkgRoundID$`, "the batch record is filed under the envelope's round", "other round id"},
 	})
 	c08SignatureAttribution(c, "C08/R3")
+	c08SignatureKey(c)
 	// SaveFSM replaces exactly one entry
 	if sf := c.Fn("C08/R3", "client/services/fsmservice", "FSM", "SaveFSM"); sf != nil {
 		n := 0
@@ -1004,4 +1005,42 @@ func dominatedBy(f *ssa.Function, d *ssa.BasicBlock) map[*ssa.BasicBlock]bool {
 		}
 	}
 	return out
+}
+
+
+// c08SignatureKey: the signature repository keeps one record per round under a key made from the round id. Rounds are told
+// apart everywhere else (board, poller, FSM storage) by the exact id string, so the key must be made from the id as it is:
+// any normalisation (trimmed, lower-cased, truncated, hashed to fewer bits) lets a message of one round rewrite the stored
+// signatures of another.
+func c08SignatureKey(c *Ctx) {
+	r := c.R
+	sp := c.P.SSAPkg("client/repositories/signature")
+	if sp == nil {
+		r.Unknown("C08/R3", "anchor:client/repositories/signature", "the signature repository must be loaded", "", "package not found")
+		return
+	}
+	n := 0
+	var bad []string
+	for f := range c.P.AllFuncs() {
+		if f.Pkg != sp || c.isTestFunc(f) {
+			continue
+		}
+		for _, call := range ssax.Calls(f, false, func(ci ssa.CallInstruction) bool {
+			o := ssax.CalleeObj(ci)
+			return o != nil && (o.Name() == "MakeCompositeKeyString" || o.Name() == "MakeCompositeKey")
+		}) {
+			a := call.Common().Args
+			if len(a) < 2 {
+				continue
+			}
+			n++
+			p := npath(a[1])
+			if strings.ContainsAny(p, "(") || strings.Contains(p, "[:") {
+				bad = append(bad, f.Name()+" at "+c.PosOf(call)+": "+p)
+			}
+		}
+	}
+	sort.Strings(bad)
+	r.Check(n >= 3 && len(bad) == 0, "C08/R3", "signature-repo:key-is-round-id", "the signature record's key is made from the round id as given (no normalisation)", "",
+		sprintf("%d key constructions; made from a transformed id: %s — two round ids that differ only in what the transformation removes share one record, and a reconstruction announced in one round overwrites the other's stored signatures", n, strings.Join(bad, "; ")))
 }
